@@ -525,6 +525,7 @@ pub fn run(_scenario: u32, choices: &[u8], _strict: bool) -> Outcome {
   r.hs = hs;
 
   // ---- stage Reply
+  let mut fin_from_bad_reply: Option<HandshakeMessageToken> = None;
   if stage == Stage::Reply {
     let bad = make_bad(&mut c, &reply, stage, &mut what);
     let res = i.auth.process_handshake(bad, i.hs);
@@ -533,12 +534,26 @@ pub fn run(_scenario: u32, choices: &[u8], _strict: bool) -> Outcome {
       Err(_) => "rejected".into(),
     });
     if accepted(&res) || secret_of(&i).is_some() {
-      o.violate("c19.forgery-accepted", &format!("reply:{}", what.split(':').next().unwrap_or("")), format!("{}: the initiator completed on a bad reply", o.sample));
-      return o;
+      // the specification makes some fields optional (their content is still covered by the
+      // signature): a reply without one of them is the genuine reply. It must then complete
+      // with equal secrets like the genuine one.
+      match (what.contains("removed"), res) {
+        (true, Ok((ValidationOutcome::OkFinalMessage, Some(f)))) => {
+          o.label("optional-field-removed-accepted");
+          fin_from_bad_reply = Some(f);
+        }
+        _ => {
+          o.violate("c19.forgery-accepted", &format!("reply:{}", what.split(':').next().unwrap_or("")), format!("{}: the initiator completed on a bad reply", o.sample));
+          return o;
+        }
+      }
     }
     o.nontrivial = true;
   }
-  let fin = match i.auth.process_handshake(reply.clone(), i.hs) {
+  let fin = if let Some(f) = fin_from_bad_reply {
+    f
+  } else {
+    match i.auth.process_handshake(reply.clone(), i.hs) {
     Ok((ValidationOutcome::OkFinalMessage, Some(fin))) => fin,
     other => {
       let d = format!("{:?}", other.map(|(oc, _)| oc)).chars().take(300).collect::<String>();
@@ -552,6 +567,7 @@ pub fn run(_scenario: u32, choices: &[u8], _strict: bool) -> Outcome {
         step_err(&mut o, "process_handshake(reply)", d);
       }
       return o;
+    }
     }
   };
 
